@@ -419,11 +419,13 @@ func runC10(c *core.Ctx) {
 	}
 	// in acquireAccessToken the first token request uses challengeScope.Union(wantScope): receiver is the first scope parameter
 	okUnion := false
-	for _, ci := range facts.CallsIn(acqAT) {
-		if sc := ci.Common().StaticCallee(); sc != nil && sc.Name() == "Union" {
-			a := ci.Common().Args
-			if argIsParam(a[0], acqAT, 2) && argIsParam(a[1], acqAT, 3) {
-				okUnion = true
+	for _, f := range withHelpers(acqAT) {
+		for _, ci := range facts.CallsIn(f) {
+			if sc := ci.Common().StaticCallee(); sc != nil && sc.Name() == "Union" {
+				a := ci.Common().Args
+				if argIsParam(resolveUp(a[0], acqAT, 3), acqAT, 2) && argIsParam(resolveUp(a[1], acqAT, 3), acqAT, 3) {
+					okUnion = true
+				}
 			}
 		}
 	}
@@ -551,74 +553,127 @@ func blobLiteralFieldOf(al *ssa.Alloc, name string) (ssa.Value, bool) {
 
 func c10StoredScope(c *core.Ctx, acqAT, acqT *ssa.Function) {
 	n := 0
-	for _, b := range acqAT.Blocks {
-		for _, in := range b.Instrs {
-			al, ok := in.(*ssa.Alloc)
-			if !ok || structName(al.Type()) != "scopedToken" {
-				continue
-			}
-			scopeV, ok1 := blobLiteralFieldOf(al, "scope")
-			tokenV, ok2 := blobLiteralFieldOf(al, "token")
-			if !ok1 || !ok2 {
-				continue
-			}
-			n++
-			// the token response the stored token string comes from
-			var tok ssa.Value
-			sliceHas(tokenV, func(v ssa.Value) bool {
-				if b2, fld, isF := facts.FieldOf(v); isF && (fld == "Token" || fld == "AccessToken") && tok == nil {
-					tok = facts.Resolve(b2)
+	for _, f := range withHelpers(acqAT) {
+		for _, b := range f.Blocks {
+			for _, in := range b.Instrs {
+				al, ok := in.(*ssa.Alloc)
+				if !ok || structName(al.Type()) != "scopedToken" {
+					continue
 				}
-				return false
-			})
-			if tok == nil {
-				c.Fail("C10.R4", "acquireAccessToken/stored-token", al.Pos(), "the cached token string does not come from the token server's response")
-				continue
-			}
-			scopeOf := func(tv ssa.Value) (ssa.Value, bool) {
-				ex, ok := facts.Resolve(tv).(*ssa.Extract)
-				if !ok || ex.Index != 0 {
-					return nil, false
+				scopeV, ok1 := blobLiteralFieldOf(al, "scope")
+				tokenV, ok2 := blobLiteralFieldOf(al, "token")
+				if !ok1 || !ok2 {
+					continue
 				}
-				call, ok := ex.Tuple.(*ssa.Call)
-				if !ok || call.Call.StaticCallee() != acqT {
-					return nil, false
-				}
-				return facts.Resolve(call.Call.Args[2]), true
-			}
-			ok = false
-			why := "the scope recorded with a new cache entry is not the scope argument of the token request that produced the token"
-			sv := facts.Resolve(scopeV)
-			if tph, isPhi := tok.(*ssa.Phi); isPhi {
-				sph, isSPhi := sv.(*ssa.Phi)
-				if isSPhi && sph.Block() == tph.Block() && len(sph.Edges) == len(tph.Edges) {
-					ok = true
-					for i := range tph.Edges {
-						want, found := scopeOf(tph.Edges[i])
-						if !found || want != facts.Resolve(sph.Edges[i]) {
-							ok = false
-						}
+				n++
+				// the token response the stored token string comes from
+				var tok ssa.Value
+				sliceHas(tokenV, func(v ssa.Value) bool {
+					if b2, fld, isF := facts.FieldOf(v); isF && (fld == "Token" || fld == "AccessToken") && tok == nil {
+						tok = facts.Resolve(b2)
 					}
-				} else {
-					// a single recorded scope must match every producing request
-					ok = true
-					for _, e := range tph.Edges {
-						want, found := scopeOf(e)
-						if !found || want != sv {
-							ok = false
-							why = "a token obtained by a narrower retry is cached under the wider scope that was asked for first: a later request needing the wider scope reuses a token that does not cover it"
-						}
-					}
+					return false
+				})
+				if tok == nil {
+					c.Fail("C10.R4", "acquireAccessToken/stored-token", al.Pos(), "the cached token string does not come from the token server's response")
+					continue
 				}
-			} else if want, found := scopeOf(tok); found {
-				ok = want == sv
+				ok, why := tokenScopePaired(tok, facts.Resolve(scopeV), acqT, 4)
+				c.Check(ok, "C10.R4", "acquireAccessToken/stored-scope", al.Pos(), "each cached token is recorded under the scope that was requested for it", why)
 			}
-			c.Check(ok, "C10.R4", "acquireAccessToken/stored-scope", al.Pos(), "each cached token is recorded under the scope that was requested for it", why)
 		}
 	}
 	if n == 0 {
 		c.Fail("C10.R4", "acquireAccessToken/stored-scope", acqAT.Pos(), "no cache entry is created by acquireAccessToken")
 	}
+}
+
+// tokenScopePaired: on every way the pair (tok, scope) can come about, tok is
+// the result of an acquireToken call whose scope argument is scope. The pair
+// is followed jointly through phis of one block, through the parameters of a
+// private helper (each call site), and through two results of one helper call
+// (each return).
+func tokenScopePaired(tok, scope ssa.Value, acqT *ssa.Function, depth int) (bool, string) {
+	const mismatch = "the scope recorded with a new cache entry is not the scope argument of the token request that produced the token"
+	const narrower = "a token obtained by a narrower retry is cached under the wider scope that was asked for first: a later request needing the wider scope reuses a token that does not cover it"
+	tok, scope = facts.Resolve(tok), facts.Resolve(scope)
+	if depth <= 0 {
+		return false, mismatch
+	}
+	// base: tok = acquireToken(ctx, scope)#0
+	if ex, ok := tok.(*ssa.Extract); ok && ex.Index == 0 {
+		if call, ok := ex.Tuple.(*ssa.Call); ok {
+			if call.Call.StaticCallee() == acqT {
+				if facts.Resolve(call.Call.Args[2]) == scope {
+					return true, ""
+				}
+				return false, mismatch
+			}
+			// two results of one private helper call
+			if sx, ok := scope.(*ssa.Extract); ok && sx.Tuple == ex.Tuple {
+				h := call.Call.StaticCallee()
+				if h != nil && h.Blocks != nil && len(privateCallSites(h)) > 0 {
+					any := false
+					for _, r := range returnsOf(h) {
+						tv := facts.RetVal(r, ex.Index)
+						if isZero(tv) {
+							continue
+						}
+						any = true
+						if ok, why := tokenScopePaired(tv, facts.RetVal(r, sx.Index), acqT, depth-1); !ok {
+							return false, why
+						}
+					}
+					return any, mismatch
+				}
+			}
+		}
+	}
+	if tph, isPhi := tok.(*ssa.Phi); isPhi {
+		sph, isSPhi := scope.(*ssa.Phi)
+		if isSPhi && sph.Block() == tph.Block() && len(sph.Edges) == len(tph.Edges) {
+			for i := range tph.Edges {
+				if ok, why := tokenScopePaired(tph.Edges[i], sph.Edges[i], acqT, depth); !ok {
+					return false, why
+				}
+			}
+			return true, ""
+		}
+		// a single recorded scope must match every producing request
+		for _, e := range tph.Edges {
+			if ok, _ := tokenScopePaired(e, scope, acqT, depth); !ok {
+				return false, narrower
+			}
+		}
+		return true, ""
+	}
+	// both are parameters of a private helper: every call site
+	if tp, ok := tok.(*ssa.Parameter); ok {
+		if sp, ok := scope.(*ssa.Parameter); ok && sp.Parent() == tp.Parent() {
+			h := tp.Parent()
+			ti, si := -1, -1
+			for i, q := range h.Params {
+				if q == tp {
+					ti = i
+				}
+				if q == sp {
+					si = i
+				}
+			}
+			sites := privateCallSites(h)
+			if len(sites) == 0 || ti < 0 || si < 0 {
+				return false, mismatch
+			}
+			for _, s := range sites {
+				a := s.Common().Args
+				if ok, why := tokenScopePaired(a[ti], a[si], acqT, depth-1); !ok {
+					return false, why
+				}
+			}
+			return true, ""
+		}
+	}
+	return false, mismatch
 }
 
 func c10Lockset(c *core.Ctx) {
